@@ -64,7 +64,12 @@ func isRecvField(v ssa.Value, fn *ssa.Function, field string) bool {
 }
 
 func runCRCDecoder(p *core.Program, fn *ssa.Function, typ string, blockLen, crcT int64) ([]crcPath, bool) {
-	var lenVal, crcVal ssa.Value
+	return runBlockDecoder(p, fn, typ, blockLen, crcT, -1)
+}
+
+// runBlockDecoder additionally binds the control flags read from the wire when flags >= 0.
+func runBlockDecoder(p *core.Program, fn *ssa.Function, typ string, blockLen, crcT, flags int64) ([]crcPath, bool) {
+	var lenVal, crcVal, flagVal ssa.Value
 	core.EachInstr(fn, func(in ssa.Instruction) {
 		if ex, ok := in.(*ssa.Extract); ok && ex.Index == 0 {
 			if c, ok := ex.Tuple.(*ssa.Call); ok && lenVal == nil && core.NameIs(core.CalleeName(c), cbor+".ReadArrayLength") {
@@ -76,14 +81,28 @@ func runCRCDecoder(p *core.Program, fn *ssa.Function, typ string, blockLen, crcT
 				crcVal = ex
 			}
 		}
+		if st, ok := in.(*ssa.Store); ok && isRecvField(st.Addr, fn, "BundleControlFlags") {
+			if ex, ok := core.Strip(st.Val).(*ssa.Extract); ok {
+				flagVal = ex
+			}
+		}
 	})
 	if lenVal == nil || crcVal == nil {
 		return nil, false
 	}
 	knownType := func(st *core.PathState) (int64, bool) { return st.Known(crcVal) }
 	pe := &core.PathEnum{Fn: fn, Bind: map[ssa.Value]int64{lenVal: blockLen, crcVal: crcT}}
+	if flags >= 0 {
+		if flagVal == nil {
+			return nil, false
+		}
+		pe.Bind[flagVal] = flags
+	}
 	pe.EvalCall = func(c *ssa.Call, st *core.PathState) (int64, bool) {
 		n := core.CalleeName(c)
+		if flags >= 0 && core.NameIs(n, bp7+"."+typ+".HasFragmentation") && st.Data["flagsStored"] != nil {
+			return flags & 1, true
+		}
 		if core.NameIs(n, bp7+"."+typ+".HasCRC") || core.NameIs(n, bp7+"."+typ+".GetCRCType") {
 			// only valid once the field has been stored on this path
 			if st.Data["crcStored"] == nil {
@@ -108,6 +127,9 @@ func runCRCDecoder(p *core.Program, fn *ssa.Function, typ string, blockLen, crcT
 		case *ssa.Store:
 			if isRecvField(x.Addr, fn, "CRCType") {
 				st.Data["crcStored"] = true
+			}
+			if isRecvField(x.Addr, fn, "BundleControlFlags") {
+				st.Data["flagsStored"] = true
 			}
 		case *ssa.UnOp:
 			if x.Op == token.MUL && isRecvField(x.X, fn, "CRCType") && st.Data["crcStored"] != nil {
